@@ -89,6 +89,7 @@ func (fs *FS) fromOSPath(
 
 	// remove root fs path prefix
 	fsPath := toSeparator(separator, osPath)
+	fsPath = strings.TrimPrefix(path.Clean("/"+fsPath), "/") // resolve "", "." and ".." elements lexically first
 	if fs.root != "" && fsPath != fs.root && !strings.HasPrefix(fsPath, fs.root+"/") {
 		return "", errInvalid
 	}
